@@ -450,6 +450,11 @@ def run_pipeline(chk, prop, n_scenes, families=FAMILIES, crash_is_violation=Fals
             # distorted (but well-shaped) mixture answers: the model is total for every such answer, so an exception of
             # the implementation is a disagreement with the model - not, by itself, a crash on valid input
             chk.count('scene_raised_under_distorted_mixture_answers_' + res['exc'])
+            if res['exc'] in ('AmpycloudError', 'other:AssertionError'):
+                # a distorted answer can make the *selected* mixture one with an unpopulated component (assumption A3 of
+                # the model, which the real library meets through the empty-component penalty): outside the assumed shape
+                chk.count('discarded_distorted_answer_outside_assumed_shape')
+                continue
             chk.mismatch('cascade model = implementation (the implementation raised under mixture answers of the assumed shape)',
                          f"{res['exc']} at stage {res['stage']}: {res['exc_msg']}", replay)
             continue
